@@ -63,7 +63,7 @@ def apply_write(dest, off, data):
     dest[off:off + len(data)] = data
 
 
-def putfo_impl(mrs, chunks, confirm, env, open_rp, close_rp, stat, callback):
+def putfo_impl(mrs, chunks, confirm, env, open_rp, close_rp, stat, callback, file_size=0):
     """Run the real putfo; returns (outcome, dest bytes)."""
     from paramiko.sftp_file import SFTPFile
     env = list(env)
@@ -100,7 +100,8 @@ def putfo_impl(mrs, chunks, confirm, env, open_rp, close_rp, stat, callback):
     calls = []
     try:
         try:
-            c.putfo(ChunkReader(chunks), "/remote", 0, (lambda a, b: calls.append(a)) if callback else None, confirm)
+            c.putfo(ChunkReader(chunks), "/remote", file_size, (lambda a, b: calls.append(a)) if callback else None,
+                    confirm)
             out = 0
         except c30.WouldBlock:
             out = 98
@@ -135,8 +136,11 @@ def gen_putfo_case(rng):
     stat = None
     if rng.random() < 0.15:
         stat = rng.choice([(101, 2), (101, 3), (105, 0), (105, sum(map(len, chunks)) + 1), (104, 0)])
+    total = sum(map(len, chunks))
+    # file_size is only a hint for the progress callback: 0 (default), exact, under- and over-estimates
+    fs = rng.choice([0, 0, total, total, max(0, total - 1), total // 2, 1, total + 7, len(chunks[0]) if chunks else 3])
     return dict(mrs=mrs, chunks=chunks, confirm=rng.random() < 0.5, env=env, open_rp=open_rp, close_rp=close_rp,
-                stat=stat, callback=rng.random() < 0.5)
+                stat=stat, callback=rng.random() < 0.5, file_size=fs)
 
 
 def coq_putfo_case(k):
@@ -212,15 +216,19 @@ def scripted_part(ctx, n):
         dict(mrs=1, chunks=[bytes([k % 251 + 1]) for k in range(130)], confirm=True,
              env=[(k >= 110, 4 if k == 60 else 0) for k in range(130)], open_rp=(102, 0), close_rp=(101, 0),
              stat=None, callback=False),
+        dict(mrs=8, chunks=[b"abcd", b"efgh", b"ij"], confirm=True, env=[], open_rp=(102, 0), close_rp=(101, 0),
+             stat=None, callback=True, file_size=4),
+        dict(mrs=8, chunks=[b"abcd", b"efgh", b"ij"], confirm=False, env=[], open_rp=(102, 0), close_rp=(101, 0),
+             stat=None, callback=False, file_size=9),
     ] + [gen_putfo_case(rng) for _ in range(n)]
     cases = []
     for j, k in enumerate(ks):
         out, dst, calls = putfo_impl(k["mrs"], k["chunks"], k["confirm"], k["env"], k["open_rp"], k["close_rp"],
-                                     k["stat"], k["callback"])
+                                     k["stat"], k["callback"], k.get("file_size", 0))
         src = b"".join(k["chunks"])
         rejected = any(code != 0 for _, code in k["env"])
         ctx.count(("putfo", repr(k)), nontrivial=len(k["chunks"]) > 0,
-                  kind="scripted-putfo:" + ("witness" if j < 4 else "rejecting" if rejected else "accepting") +
+                  kind="scripted-putfo:" + ("witness" if j < 6 else "rejecting" if rejected else "accepting") +
                   (":confirm" if k["confirm"] else ""))
         case = {k2: (v if k2 != "chunks" else [bytes(c) for c in v]) for k2, v in k.items()}
         honest = k["stat"] is None
@@ -325,7 +333,7 @@ def live_part(ctx, sizes, codes, wd):
     old_hook = threading.excepthook
     threading.excepthook = lambda args: None      # prefetch threads of closed sessions die noisily
 
-    def upload(src, pos, code, confirm, use_put, cb):
+    def upload(src, pos, code, confirm, use_put, cb, declared=None):
         """One upload on a fresh session.  Returns (status, value, destination bytes, rejected?)."""
         sess = box["sess"] = alive_session(ctx, box["sess"])
         faults.reset()
@@ -339,7 +347,8 @@ def live_part(ctx, sizes, codes, wd):
                 with open(lsrc, "wb") as fh:
                     fh.write(src)
                 return sess.sftp.put(lsrc, "/up.bin", cbf, confirm)
-            return sess.sftp.putfo(io.BytesIO(src), "/up.bin", len(src), cbf, confirm)
+            return sess.sftp.putfo(io.BytesIO(src), "/up.bin", len(src) if declared is None else declared, cbf,
+                                   confirm)
 
         st, v = with_watchdog(go, wd)
         try:
@@ -349,7 +358,7 @@ def live_part(ctx, sizes, codes, wd):
             dst = b""
         return st, v, dst, faults.hit is not None
 
-    def download(src, pos, what, prefetch, use_get, cb, mc):
+    def download(src, pos, what, prefetch, use_get, cb, mc, resize=None):
         """One download on a fresh session.  Returns (status, value, bytes received, fault hit)."""
         sess = box["sess"] = alive_session(ctx, box["sess"])
         with open(os.path.join(sess.root, "down.bin"), "wb") as fh:
@@ -366,7 +375,13 @@ def live_part(ctx, sizes, codes, wd):
                 return sess.sftp.get("/down.bin", ldst, cbf, prefetch, mc)
             return sess.sftp.getfo("/down.bin", buf, cbf, prefetch, mc)
 
-        st, v = with_watchdog(go, wd)
+        if resize is not None:
+            # the server resizes the file when it is opened, i.e. after get/getfo took its size
+            c30.SHRINK["path"], c30.SHRINK["size"] = os.path.join(sess.root, "down.bin"), resize
+        try:
+            st, v = with_watchdog(go, wd)
+        finally:
+            c30.SHRINK.clear()
         got = None
         if st == "ok":
             if use_get:
@@ -376,11 +391,47 @@ def live_part(ctx, sizes, codes, wd):
                 got = buf.getvalue()
         return st, v, got, faults.hit
 
+    stub_cls, stub_open = c30.install_shrink()
     try:
         for size in sizes:
             src = bytes(rng.getrandbits(8) for _ in range(min(size, 4096))) * (size // 4096 + 1)
             src = src[:size]
             nchunks = max(1, (size + 32767) // 32768)
+            # ---- the declared size is only a progress hint: under- and over-estimates, and the default 0
+            for declared in sorted({0, 1, size // 2, max(0, size - 1), 32768, size + 1000}):
+                confirm = rng.random() < 0.5
+                cb = rng.random() < 0.5
+                case = {"op": "putfo", "size": size, "declared_file_size": declared, "confirm": confirm, "callback": cb}
+                ctx.count(("declared", repr(case)), nontrivial=size > 0, kind="live-upload:declared-size")
+                st, v, dst, _ = upload(src, None, 0, confirm, False, cb, declared)
+                if st != "ok":
+                    st, v, dst, _ = upload(src, None, 0, confirm, False, cb, declared)
+                if st == "hang":
+                    ctx.fail("upload-hangs", "an upload did not complete under the watchdog", case=case)
+                elif st == "exc":
+                    ctx.fail("upload-raises-without-fault", "a fault-free upload on a fresh session raised %r "
+                             "(twice)" % (v,), case=case)
+                elif dst != src:
+                    ctx.fail("upload-truncated-by-declared-size" if len(dst) < len(src) else "upload-inexact-without-fault",
+                             "putfo(file_size=%d) of a %d-byte source returned normally with a remote file of %d bytes"
+                             % (declared, len(src), len(dst)), case=case, expected={"len": len(src)},
+                             observed={"len": len(dst), "first_diff": first_diff(src, dst)})
+            # ---- the remote file changes size between get/getfo's stat and its reads
+            for newsize in sorted({size + 1, size + 40000, size // 2} - {size}):
+                for prefetch, mc in ((True, None), (True, 2), (False, None)):
+                    use_get = rng.random() < 0.5
+                    case = {"op": "get" if use_get else "getfo", "size_at_stat": size, "size_when_read": newsize,
+                            "prefetch": prefetch, "max_concurrent": mc}
+                    ctx.count(("resize", repr(case)), nontrivial=True, kind="live-download:resized-after-stat")
+                    now = (src + b"\0" * max(0, newsize - size))[:newsize]
+                    st, v, got, _ = download(src, None, None, prefetch, use_get, False, mc, resize=newsize)
+                    if st == "hang":
+                        ctx.fail("download-hangs", "a download did not complete under the watchdog", case=case)
+                    elif st == "ok" and got != now:
+                        ctx.fail("download-inexact:resized-after-stat:" + ("prefetch" if prefetch else "plain"),
+                                 "%s returned normally with %d bytes of a remote file that has %d (it had %d when its "
+                                 "size was taken)" % (case["op"], len(got), len(now), size), case=case,
+                                 expected={"len": len(now)}, observed={"len": len(got), "first_diff": first_diff(now, got)})
             # ---- uploads: every write position (incl. none), codes round-robin
             positions = [None] + list(range(nchunks)) if size else [None]
             for pi, pos in enumerate(positions):
@@ -438,6 +489,8 @@ def live_part(ctx, sizes, codes, wd):
                                      case=case, expected={"len": len(expected)},
                                      observed={"len": len(got), "first_diff": first_diff(expected, got)})
     finally:
+        stub_cls.open = stub_open
+        c30.SHRINK.clear()
         threading.excepthook = old_hook
         SFTPHandle.write, SFTPHandle.read = ow, orr
         if box["sess"] is not None:
@@ -607,7 +660,8 @@ def run(ctx):
                 "reads, put/putfo/get/getfo, confirm/callback/prefetch on/off; uploads of 180..400 KB as > 100 pipelined "
                 "1000-byte writes with one early write rejected; downloads of 100 KB..1 MiB during which the server "
                 "side of the session goes away at the first / second / middle / last read, prefetch uncapped, capped "
-                "and off.  Non-trivial = distinct and non-empty.")
+                "and off; putfo with a declared file_size of 0 / under / exact / over (scripted and live); downloads of "
+                "files that grow or shrink between get/getfo's stat and its reads.  Non-trivial = distinct and non-empty.")
     ctx.trusted += ["models coq/Model/C29.v and C30.v are hand-written; tied to sftp_client.py / sftp_file.py / file.py "
                     "by this differential run (vm_compute of the model's own definitions)",
                     "download path covered by the implementation-level oracle only"]
